@@ -25,6 +25,14 @@ def idxRedefinedOldColsDropped (a b : DB) : Bool :=
       | none => false
     | none => false
 
+/-- a foreign key kept under its name with a different definition: sqlize marks it `modify` and prints nothing -/
+def fkRedefined (a b : DB) : Bool :=
+  a.any fun t => match b.find t.name with
+    | some u => t.fks.any fun f => match u.fks.find? (·.name == f.name) with
+      | some f' => f != f'
+      | none => false
+    | none => false
+
 /-- some column of a table present on both sides is missing from `b` -/
 def needsColumnRemoval (a b : DB) : Bool :=
   a.any fun t => match b.find t.name with
@@ -55,6 +63,7 @@ def common (g : Globals) (a b : DB) : Option String :=
   if !orderCompatible a b then some "excluded:not-order-compatible"
   else if pkChanged a b then some "pk-changed"
   else if idxRedefinedOldColsDropped a b || idxRedefinedOldColsDropped b a then some "index-redefined-old-columns-dropped"
+  else if fkRedefined a b then some "foreign-key-redefined"
   else match g.dialect with
     | .mysql => none
     | .postgres =>
